@@ -189,16 +189,20 @@ def r_respawn_guard(e, R):
         try:
             names, tab, bad = guards.compare(
                 expr, {"NP": dom, "NR": dom, "P": dom, "E": ["executor"], "M": [1, 2, 3], "S": [False, True], "B": [None], "K": [False]}, classify,
-                lambda env: True if (env["NP"] > 0 and env["P"] == 0) else None,
+                lambda env: True if (env["NP"] > 0 and env["P"] == 0) else (False if env["NP"] == 0 else None),
                 constraint=lambda env: env["NR"] <= env["NP"])
         except KeyError as ex:
             raise AnalysisError(f"respawn guard: atom {ex} missing from the domain")
         R.info["respawn_guard_rows"] = len(tab)
         for env, got, want in bad[:1]:
-            R.fail("R-RESPAWN-GUARD", f.short, norm(outer.test),
-                   f"the respawn guard is false for pending={env['NP']}, running={env['NR']}, workers={env['P']}, shutdown={env['S']}: work is "
-                   "outstanding and nobody is left to take it, yet no worker is re-spawned", e.loc(f, outer.test),
-                   instance=f"{f.short}: guard rows with pending>0 and no worker")
+            if want:
+                msg = (f"the respawn guard is false for pending={env['NP']}, running={env['NR']}, workers={env['P']}, shutdown={env['S']}: work is "
+                       "outstanding and nobody is left to take it, yet no worker is re-spawned")
+            else:
+                msg = (f"the respawn guard is true for pending={env['NP']}, running={env['NR']}, workers={env['P']}: nothing is pending, yet a worker that "
+                       "left on its idle timeout is replaced at once (with a 'worker stopped while some jobs were given' warning): idle workers never go away")
+            R.fail("R-RESPAWN-GUARD", f.short, norm(outer.test), msg, e.loc(f, outer.test),
+                   instance=f"{f.short}: guard rows with pending>0 and no worker / nothing pending")
         if not bad:
             R.ok("R-RESPAWN-GUARD", f"{f.short}: guard `{norm(outer.test)[:70]}` is true on all {sum(1 for v in tab if True)} rows "
                  "with pending>0 and no worker (liveness-critical rows)", e.loc(f, outer.test))
